@@ -400,9 +400,12 @@ package internal
 
 //@ spec func allRefsNonNil(refs ResponseRefs) bool = forall i int :: 0 <= i && i < len(refs) ==> refs[i] != nil
 
+// indexRead: the variant index returned by the last GetRefs of this exchange (C08)
+//@ ghost var indexRead ResponseRefs
 //@ iface ResponseCache.GetRefs(c, key)
-//@   property C10
-//@   pure
+//@   property C10 C08
+//@   assigns indexRead
+//@   ensures indexRead == result0                                     # ghost-update
 //@   ensures result1 != nil ==> len(result0) == 0                     # name: no-refs-on-error
 //@   ensures result1 == nil ==> allRefsNonNil(result0)                # name: refs-non-nil
 //@   ensures upstreamCalls == old(upstreamCalls)
@@ -468,13 +471,21 @@ package internal
 //@   assigns storeWrites, deletedKeys
 //@   ensures deletedKeys == arrStore(old(deletedKeys), key, true)                   # ghost-update
 
+// what the last StoreResponse call of this exchange was given (C08)
+//@ ghost var lastStoredResp *http.Response
+//@ ghost var lastStoredReqTime time.Time
+//@ ghost var lastStoredRespTime time.Time
+//@ ghost var lastStoredRefIndex int
 //@ iface ResponseStorer.StoreResponse(s, req, resp, urlKey, refs, reqTime, respTime, refIndex)
 //@   property C06
 //@   requires req != nil && resp != nil && resp.Header != nil                       # name: well-formed
 //@   requires storableReq(req)                                                      # name: request-storable
 //@   requires storableResp(resp)                                                    # name: response-storable
-//@   assigns storeWrites, lastSetOK, lastRefs, bodyReadFailed, map(resp.Header), resp.Body, now
+//@   requires refs == indexRead || len(refs) == 0                                   # name: refs-is-the-index-read-in-this-exchange   props: C08
+//@   assigns storeWrites, lastSetOK, lastRefs, bodyReadFailed, map(resp.Header), resp.Body, now, lastStoredResp, lastStoredReqTime, lastStoredRespTime, lastStoredRefIndex
 //@   ensures resp.Header != nil
+//@   ensures lastStoredResp == resp && lastStoredReqTime == reqTime && lastStoredRespTime == respTime && lastStoredRefIndex == refIndex     # ghost-update
+//@   ensures storeWrites >= old(storeWrites)                                        # ghost-update
 //@   ensures result == nil ==> len(lastRefs) >= 1 && len(lastRefs) <= len(refs) + 1                                          # name: index-grows-by-at-most-one   props: C19
 //@   ensures result == nil && 0 <= refIndex && refIndex < len(refs) ==> len(lastRefs) <= len(refs)                          # name: replacement-does-not-grow   props: C19 C08
 //@   ensures result == nil ==> (forall j int :: 0 <= j && j < len(lastRefs) ==> lastRefs[j] != nil)                        # name: index-has-no-nil   props: C19 C10
@@ -485,7 +496,7 @@ package internal
 //@   property C07 C19
 //@   requires reqURL != nil                                                          # name: url-non-nil
 //@   requires allRefsNonNil(refs)                                                    # name: refs-non-nil
-//@   assigns storeWrites, deletedKeys
+//@   assigns storeWrites, deletedKeys, indexRead
 //@   ensures deletedKeys[key]                                                        # name: index-deleted
 //@   ensures forall i int :: 0 <= i && i < len(refs) ==> deletedKeys[refs[i].ResponseID]     # name: every-variant-deleted
 //@   ensures forall x string :: old(deletedKeys)[x] ==> deletedKeys[x]               # name: deletions-accumulate
@@ -539,13 +550,14 @@ package internal
 //@   loop 0 invariant forall j int :: 0 <= j && j <= rangeindex && sies[j] != nil && sieValidI(sies[j]) ==> !sieWellWithin(fAge(freshness, now), freshness.UsefulLife, sieDurI(sies[j]))
 
 //@ iface ValidationResponseHandler.HandleValidationResponse(h, ctx, req, resp, err)
-//@   property C02 C13 C10 C06
+//@   property C02 C13 C10 C06 C08
 //@   requires req != nil && req.URL != nil && ctx.Stored != nil && ctx.Stored.Data != nil && ctx.Stored.Data.Header != nil
 //@   requires ctx.Freshness != nil && ctx.Freshness.Age != nil
 //@   requires (resp != nil && resp.Header != nil && err == nil) || (resp == nil && err != nil)
 //@   requires resp == nil || (resp != ctx.Stored.Data && resp.Header != ctx.Stored.Data.Header)
 //@   requires req.Method == "GET" && hget(req.Header, "Range") == ""                                # name: plain-get
 //@   requires hasArr(ctx.CCReq) == dirsHas(ccText(req.Header))                                       # name: request-directives-are-the-requests
+//@   requires ctx.Refs == indexRead || len(ctx.Refs) == 0                                            # name: refs-is-the-index-read-in-this-exchange   props: C08
 //@   let ts = old(ccText(ctx.Stored.Data.Header))
 //@   let hs = dirsHas(ts)
 //@   let vs = dirsVal(ts)
@@ -557,11 +569,13 @@ package internal
 //@   let life = old(ctx.Freshness.UsefulLife)
 //@   let ageIn = old(fAge(ctx.Freshness, now))
 //@   let ageOut = old(satadd(max(ctx.Freshness.Age.Value, 0), max(tsub(now, ctx.Freshness.Age.Timestamp), 0)))
-//@   assigns *
+//@   assigns storeWrites, lastSetOK, lastRefs, bodyReadFailed, deletedKeys, lastStoredResp, lastStoredReqTime, lastStoredRespTime, lastStoredRefIndex, now, map(ctx.Stored.Data.Header), map(resp.Header), resp.Body
 //@   ensures upstreamCalls == old(upstreamCalls)                                                   # name: no-upstream
 //@   ensures (result0 != nil) != (result1 != nil)                                                  # name: result-shape   props: C10
 //@   ensures result1 != nil ==> result1 == err                                                     # name: error-is-origin-error   props: C10
 //@   ensures result0 != nil ==> result0 == old(ctx.Stored.Data) || result0 == resp                 # name: stored-or-origin-reply
+//@   ensures result0 == resp && storeWrites != old(storeWrites) ==> lastStoredResp == resp && lastStoredReqTime == ctx.Start && lastStoredRespTime == ctx.End && lastStoredRefIndex == ctx.RefIndex    # name: full-reply-replaces-the-matched-variant   props: C08
+//@   ensures result0 == old(ctx.Stored.Data) ==> storeWrites == old(storeWrites)                   # name: handler-does-not-store-the-merged-response
 //@   ensures result0 == old(ctx.Stored.Data) && err == nil && resp.StatusCode == 304 ==> statusIs(result0.Header, "REVALIDATED", true)       # name: revalidated-marked   props: C11
 //@   ensures result0 == old(ctx.Stored.Data) && !(err == nil && resp.StatusCode == 304) ==> statusIs(result0.Header, "STALE", true) && (exists n int :: hget(result0.Header, "Age") == itoa(n) && n >= secsOf(ageIn))   # name: stale-if-error-marked   props: C11
 //@   let ncS = unquote(vs["no-cache"])
@@ -574,8 +588,12 @@ package internal
 //@   property C11
 //@   requires r != nil && r.l != nil && r.clock != nil && r.ci != nil && r.ce != nil && r.siep != nil && r.rs != nil
 
+//@ func TrimmedCSVCanonicalSeq
+//@   trusted
+//@   pure
+//@   ensures result != nil
 //@ func hopByHopHeaders
-//@   property C05 C08
+//@   property C05
 //@   nosafety
 //@   pure
 //@   fresh
@@ -748,7 +766,7 @@ package internal
 //@   property C07
 //@   nosafety
 //@   requires r != nil && r.cache != nil && r.cke != nil && reqURL != nil && deleteFn != nil
-//@   assigns storeWrites, deletedKeys
+//@   assigns storeWrites, deletedKeys, indexRead
 //@   ensures forall x string :: old(deletedKeys)[x] ==> deletedKeys[x]                                     # name: deletions-accumulate
 //@   loop 0 invariant forall x string :: old(deletedKeys)[x] ==> deletedKeys[x]
 //@   rangefunc 0 invariant forall x string :: old(deletedKeys)[x] ==> deletedKeys[x]
